@@ -157,8 +157,10 @@ SysNewModel(s, name) ==
 \* model's NAME: for an open model that is its own entry; through the handle of a model
 \* that was closed before it is a KeyError or -- when another model took the name
 \* since -- the entry of that other model (KF:C19.StaleHandleCloseDropsNamesake).
+\* Repaired (fix: 9b6a51e): the entry is removed only when it IS this model; a second
+\* close through the handle of a closed model returns silently.
 SysCloseModel(s, m) ==
-    IF s.nm[m] \notin DOMAIN s.reg THEN s                                  \* 659 KeyError
+    IF s.nm[m] \notin DOMAIN s.reg \/ s.reg[s.nm[m]] # m THEN s           \* 658-659 already closed
     ELSE [s EXCEPT !.reg = Drop(@, {s.nm[m]}),                             \* 659 del self.models[model.name]
                    !.cur = IF @ = m THEN 0 ELSE @]                         \* 660-661
 
@@ -184,8 +186,7 @@ ApiRename(s, m, name, ro) ==
     LET r == SysRenameModel(s, name, s.nm[m], ro)
     IN [s |-> r.s, r |-> IF r.r = "ValueError" THEN "ValueError" ELSE "ok", id |-> 0]
 
-ApiClose(s, m) == [s |-> SysCloseModel(s, m),
-                   r |-> IF s.nm[m] \in DOMAIN s.reg THEN "ok" ELSE "KeyError", id |-> 0]
+ApiClose(s, m) == [s |-> SysCloseModel(s, m), r |-> "ok", id |-> 0]
 
 \* models reachable from X through references between models
 RECURSIVE ReachFrom(_, _)
